@@ -1260,9 +1260,10 @@ theorem source_roundtrip (regs : Regs) (tb : TableOK regs) (env : LexEnv regs) (
   exact expr_text_reparses regs tb env rt c.strip (canon_producible hnot c hc) hl (expr_fits_of_source regs tb hnot maxDepth c hc hf)
 
 /-- … for everything the parser accepts as one expression, given that its canonical reading nests
-within the limit (which the acceptance itself is believed to imply — the depth accounting `nest`
-mirrors the parser's counter — but that converse is not proved; the nesting-limit stream of the
-check exercises it). -/
+within the limit in the sense of `Fits`. (`nest` is a *sufficient* measure of the parser's recursion
+depth, not an exact one: it charges the whole right operand of an infix operator one level although
+only the operand's own operator loop runs one level deeper — `a + ((x)) * b` is accepted one level
+beyond its `nest`. So acceptance alone does not give `Fits`; sources written within the limit do.) -/
 theorem accepted_roundtrip (regs : Regs) (tb : TableOK regs) (env : LexEnv regs) (rt : RegsText regs)
     (hnot : regs.isPrefix notName = true) (toks : List Tok) (a : AST)
     (h : parseTokens regs maxDepth toks = .ok a) (hns : ∀ es, a ≠ .stmt es) (hl : LeafOK regs a)
